@@ -231,6 +231,15 @@ def _one(args):
     world, njobs, variant = args
     m = C09_bounded._mods()
     os.environ["STEPUP_DEBUG"] = "1"
+    if world.startswith("2:"):
+        # a two-phase world of contracts/C10_bounded.py (second build after an edit): same exploration, final graphs collected
+        from contracts import C10_bounded
+
+        outcomes = {}
+        res = asyncio.run(C10_bounded._explore(m, world[2:], njobs, variant, limit=600, outcomes=outcomes))
+        if "error" in res:
+            return world, (njobs, variant), dict(world=world, njobs=njobs, error=res["error"], schedule=res.get("schedule", []))
+        return world, (njobs, variant), outcomes
     return world, (njobs, variant), asyncio.run(_explore(m, world, njobs, variant))
 
 
@@ -244,6 +253,8 @@ def all_schedules(tier, seed):
     import multiprocessing
 
     jobs = [(w, n, v) for w in WORLDS for n in (1, 2, 3) for v in range(len(WORLDS[w]["steps"]))]
+    # second builds after an edit (a producer reruns and reproduces / changes its output while a consumer announces it)
+    jobs += [("2:" + w, n, 0) for w in ("unchanged-output-announced-late", "changed-output-announced-late") for n in (1, 2)]
     failures, total = [], 0
     per_world = {}
     with concurrent.futures.ProcessPoolExecutor(max_workers=12, mp_context=multiprocessing.get_context("fork")) as ex:
